@@ -1082,3 +1082,67 @@ def error_matrix():
                         continue          # the wrapping sources: one identifier kind is enough
                     out.append((btmpl.format(T=t, B=bad, U=use), "blame", bname, sname, iname))
     return out
+
+
+# ----------------------------------------------------------------------------- multiline string layouts
+# Exhaustive small cross product of multiline-string layouts: up to three lines, each line with an
+# indentation in {0, 2, 4} and a content kind (text, interpolation at the start of the line,
+# interpolation after text, text around an interpolation), blank and whitespace-only lines, with
+# and without a line break right after the opening delimiter and before the closing one; the
+# delimiter length, CRLF line endings, tab indentation, nested and multiline interpolated
+# expressions rotate over the layouts.  The indentation stripping of the parser (min_indent /
+# strip_indent), the lexer's candidate-interpolation splitting and the printers see every layout.
+
+ML_CONTENTS = ["text", "interp", "text-interp", "text-interp-text"]
+
+
+def _ml_line(indent, kind, pc, expr):
+    sp = " " * indent
+    itp = pc + "{" + expr + "}"
+    if kind == "text":
+        return sp + "ab c"
+    if kind == "interp":
+        return sp + itp
+    if kind == "text-interp":
+        return sp + "k: " + itp
+    if kind == "text-interp-text":
+        return sp + "a " + itp + " z"
+    if kind == "blank":
+        return ""
+    return " " * indent            # whitespace-only
+
+
+def multiline_matrix():
+    """[(string literal source, description)]"""
+    kinds = [(i, k) for i in (0, 2, 4) for k in ML_CONTENTS[:3]] + [(0, "blank"), (3, "ws-only"), (2, "text-interp-text")]
+    seqs = [[a] for a in kinds] + [[a, b] for a in kinds for b in kinds] + [[a, b, c] for a in kinds for b in kinds for c in kinds]
+    exprs = ['"v"', 'x', 'm%"in %{"n"} er"%', 'std.to_string 1', '"l1\\nl2"', 'm%"\n    deep\n  %{"q"}\n"%', '{a = "f"}.a']
+    out = []
+    n = 0
+    for seq in seqs:
+        for lead in (True, False):
+            n += 1
+            pcs = "%" * (2 if n % 5 == 0 else 1)
+            expr = exprs[n % len(exprs)]
+            lines = [_ml_line(i, k, pcs, expr) for i, k in seq]
+            body = ("\n" if lead else "") + "\n".join(lines)
+            tail = ["\n", "\n  ", "", "\n    "][n % 4]
+            body += tail
+            if n % 11 == 0:
+                body = body.replace("\n", "\r\n")
+            if n % 13 == 0:
+                body = body.replace("  ", "\t")
+            lit = "m" + pcs + '"' + body + '"' + pcs
+            out.append((lit, "%s lead=%s" % ("/".join("%d%s" % (i, k) for i, k in seq), lead)))
+    return out
+
+
+def multiline_batches(matrix, size=16):
+    out = []
+    for i in range(0, len(matrix), size):
+        out.append(matrix[i:i + size])
+    return out
+
+
+def multiline_program(batch):
+    return 'let x = "X" in {\n' + ",\n".join("  s%d = %s" % (i, lit) for i, (lit, _) in enumerate(batch)) + "\n}"
